@@ -216,7 +216,15 @@ def _one_site2(ctx, s2) -> int:
         ctx.ob("a.inferred-sites", f, f"site:{_ord(ctx, f)}", True, f"{s2.sh(s2.call, 70)}: dtype inferred", s2.node)
         return 1
     if vector_valued(it, s2.data, f):
-        ctx.ob("a.site-typing", f, f"site:{_ord(ctx, f)}:table", True, f"table construction `{s2.sh(s2.call, 60)}`", s2.node)
+        # columns handed to Vector(...): a Table if their lengths agree (the dtype is then not used), otherwise a vector whose CELLS
+        # are the column vectors - a scalar dtype taken from a (non-table) operand does not describe those
+        from ..sites2 import dtype_of
+        lab = [dtype_of(dt) for dt in leaves(s2.dtype)]
+        bad = s2.kind == "Vector" and f.cls not in ("Table", "Row") and any(
+            o is not None and o == ("param", s2.top.params[0]) for o in lab) if s2.top.params else False
+        ctx.ob("a.site-typing", f, f"site:{_ord(ctx, f)}:table", not bad, f"table construction `{s2.sh(s2.call, 60)}`", s2.node,
+               message=f"`{s2.sh(s2.call, 70)}` stacks column vectors under the dtype of `{s2.top.params[0] if s2.top.params else '?'}`: when "
+                       f"their lengths differ no Table is made and the result is a vector of vectors that reports a scalar dtype")
         return 0
     datas = leaves(s2.data)
     dts = leaves(s2.dtype)
@@ -1469,6 +1477,9 @@ MUTANTS = [
     dict(id="bool-rung-missing", module=_V, old="		if target_kind is int:\n			return kind is bool\n		if target_kind is float:\n			return kind in (bool, int)",
          new="		if target_kind is float:\n			return kind is int", rules=["b.promote", "b.validation-loop"],
          desc="the defect repaired by fix 64d31b9: a bool vector rejects an int value instead of promoting"),
+    dict(id="rshift-labels-columns-with-own-dtype", module=_V, old="			return Vector((self,) + (other,))",
+         new="			return Vector((self,) + (other,), dtype=self._dtype)", rules=["a.site-typing"],
+         desc="the defect repaired by fix eaff0dd"),
     dict(id="cast-date-passes-datetime", module=_V,
          old="				if isinstance(x, datetime):\n					return x.date()  # a datetime is not of kind date: keep the date part\n", new="",
          rules=["a.site-typing"], desc="the defect repaired by fix b11e7f6: a datetime vector cast to date keeps datetimes under <date>"),
